@@ -37,7 +37,7 @@ def oracle(case, res):
     ts = res['ts_raw']
     txt = sc.block_text(case).replace('\n', ' | ')
     rej = case.get('info', {}).get('reject')
-    if rej in ('short', 'garbage', 'intscalar', 'badic', 'string'):
+    if rej in ('short', 'garbage', 'badic', 'string'):      # ('intscalar' is refused by the code today; the property does not demand it)
         ok = res['outcome'] is not None and res.get('exc_is_value_error') and len(ts) == 0
         if not ok:
             fails.append({'key': 'reject:' + rej, 'what': 'malformed %s specification: outcome %r, %d series stored (%s)' % (
